@@ -262,12 +262,12 @@ theorem withBaseStr_top (n : String) (rel : Comps) :
     withBaseStr [n] (n :: rel) = joinSlash (n :: rel) := by
   simp [withBaseStr, parent, strOf]
 
-theorem filterKeep_eq_keep (o : Oracles) (st : Settings) (cwd : Comps) (probe : Comps → Option Nat)
+theorem filterKeep_eq_keep (o : Oracles) (st : Settings) (cwd : Comps)
     (n : String) (cp : Comps) (f : FileEnt)
     (hrel : f.rel.all isClean = true) (hcp : cp <+: f.rel) (hh : isHidden cp = false)
     (hpat : cp = [] ∨ Spec.noPatterns st = true)
-    (hprobe : probeEmpty probe (n :: f.rel) = (f.size == 0)) :
-    filterKeep o st cwd probe (n :: cp) (n :: f.rel) = Spec.keep o st n f := by
+    (hsz : (f.size != 0) = true) :
+    filterKeep o st cwd (n :: cp) (n :: f.rel) = Spec.keep o st n f := by
   obtain ⟨d, hd⟩ := hcp
   have hdc : d.all isClean = true := by
     rw [← hd, List.all_append, Bool.and_eq_true] at hrel; exact hrel.2
@@ -282,19 +282,19 @@ theorem filterKeep_eq_keep (o : Oracles) (st : Settings) (cwd : Comps) (probe : 
     · rw [withBaseStr_top, isExcluded_eq]; rfl
     · rw [isExcluded_eq, excluded_noPatterns o st _ hnp, excluded_noPatterns o st _ hnp]; rfl
   unfold filterKeep Spec.keep
-  simp only [hrp, hhd, hprobe, hex]
+  simp only [hrp, hhd, hsz, hex]
   generalize isHidden f.rel = a
   generalize Spec.excluded o st (Spec.patPath n f) = c
   generalize Spec.included o st (Spec.patPath n f) = e
-  cases a <;> cases h : (f.size == 0) <;> cases c <;> cases e <;> simp_all
+  cases a <;> cases c <;> cases e <;> rfl
 
-/-- what `prefixOK` buys: the common directory of the listed files is not hidden, and it is the
-    tree's top unless there are no patterns -/
-theorem cpRel_ok (st : Settings) (t : Tree) (L : List FileEnt) (hperm : L.Perm t.files)
-    (hne : L ≠ []) (hprefix : Spec.prefixOK st t = true) :
+/-- what `prefixOK` buys: the common directory of the files handed to `filter_files` is not
+    hidden, and it is the tree's top unless there are no patterns -/
+theorem cpRel_ok (st : Settings) (F : List FileEnt) (L : List FileEnt) (hperm : L.Perm F)
+    (hne : L ≠ []) (hprefix : Spec.prefixOKOn st F = true) :
     isHidden (cpRel L) = false ∧ (cpRel L = [] ∨ Spec.noPatterns st = true) := by
-  have hm : ∀ f, f ∈ t.files → f ∈ L := fun f hf => hperm.mem_iff.mpr hf
-  unfold Spec.prefixOK at hprefix
+  have hm : ∀ f, f ∈ F → f ∈ L := fun f hf => hperm.mem_iff.mpr hf
+  unfold Spec.prefixOKOn at hprefix
   simp only [Bool.or_eq_true, Bool.and_eq_true, List.any_eq_true, List.isEmpty_iff,
     Bool.not_eq_true', bne_iff_ne, ne_eq] at hprefix
   have nilcase : cpRel L = [] → isHidden (cpRel L) = false ∧ (cpRel L = [] ∨ Spec.noPatterns st = true) := by
@@ -358,19 +358,19 @@ theorem filesInfo_eq (cwd : Comps) (B : PPath) (L : List FileEnt)
     rw [abspath_listedPath cwd B f (hL f hf), relativeTo_append]
     rfl
 
-theorem filterFiles_eq (o : Oracles) (st : Settings) (cwd : Comps) (probe : Comps → Option Nat)
-    (B : PPath) (t : Tree) (L : List FileEnt) (hperm : L.Perm t.files)
+theorem filterFiles_eq (o : Oracles) (st : Settings) (cwd : Comps)
+    (B : PPath) (t : Tree) (L : List FileEnt) (hperm : L.Perm (Spec.nonEmpty t))
     (hrel : ∀ f ∈ L, f.rel.all isClean = true)
-    (hprobe : ∀ f ∈ L, probeEmpty probe (t.name :: f.rel) = (f.size == 0))
+    (hsz : ∀ f ∈ L, (f.size != 0) = true)
     (hprefix : Spec.prefixOK st t = true) :
-    (filterFiles o st cwd probe (L.map fun f => (mkItem B f, t.name :: f.rel))).map (·.1)
+    (filterFiles o st cwd (L.map fun f => (mkItem B f, t.name :: f.rel))).map (·.1)
       = (L.filter (Spec.keep o st t.name)).map (mkItem B) := by
   cases hL : L with
   | nil => rfl
   | cons f0 fs =>
     rw [← hL]
     have hne : L ≠ [] := by rw [hL]; exact List.cons_ne_nil _ _
-    obtain ⟨hh, hpat⟩ := cpRel_ok st t L hperm hne hprefix
+    obtain ⟨hh, hpat⟩ := cpRel_ok st (Spec.nonEmpty t) L hperm hne hprefix
     unfold filterFiles
     have hbase : (commonpath ((L.map fun f => (mkItem B f, t.name :: f.rel)).map (·.2))).getD cwd
         = t.name :: cpRel L := by
@@ -381,12 +381,12 @@ theorem filterFiles_eq (o : Oracles) (st : Settings) (cwd : Comps) (probe : Comp
     simp only [hbase]
     rw [List.filter_map, List.map_map]
     have hcongr : L.filter ((fun it : Item × Comps =>
-          filterKeep o st cwd probe (t.name :: cpRel L) it.2) ∘
+          filterKeep o st cwd (t.name :: cpRel L) it.2) ∘
             fun f => (mkItem B f, t.name :: f.rel)) = L.filter (Spec.keep o st t.name) := by
       apply List.filter_congr
       intro f hf
-      exact filterKeep_eq_keep o st cwd probe t.name (cpRel L) f (hrel f hf)
-        (cpRel_prefix L f hf) hh hpat (hprobe f hf)
+      exact filterKeep_eq_keep o st cwd t.name (cpRel L) f (hrel f hf)
+        (cpRel_prefix L f hf) hh hpat (hsz f hf)
     rw [hcongr]
     rfl
 
@@ -508,9 +508,29 @@ theorem pathlibNorm_mem (p : PPath) : ∀ c ∈ (pathlibNorm p).comps, c ≠ "" 
   simp only [pathlibNorm, List.mem_filter, Bool.and_eq_true, bne_iff_ne, ne_eq] at hc
   exact hc.2
 
+/-- `_set_files`' own empty-file rule on a listing whose paths exist: the empty files go -/
+theorem dropEmpty_eq (ex : PPath → Bool) (B : PPath) (L : List FileEnt)
+    (hex : ∀ f ∈ L, ex (listedPath B f) = true) :
+    dropEmpty ex (L.map (mkItem B)) = (L.filter fun f => f.size != 0).map (mkItem B) := by
+  unfold dropEmpty
+  rw [List.filter_map]
+  congr 1
+  apply List.filter_congr
+  intro f hf
+  simp only [Function.comp, mkItem, hex f hf, Bool.and_true]
+  rfl
+
+theorem filter_keep_nonEmpty (o : Oracles) (st : Settings) (n : String) (L : List FileEnt) :
+    (L.filter fun f => f.size != 0).filter (Spec.keep o st n) = L.filter (Spec.keep o st n) := by
+  rw [List.filter_filter]
+  apply List.filter_congr
+  intro f _
+  unfold Spec.keep
+  cases (f.size != 0) <;> simp
+
 theorem setFiles_eq_created (o : Oracles) (st : Settings) (cwd : Comps)
-    (probe : Comps → Option Nat) (B : PPath) (t : Tree) (L : List FileEnt)
-    (hperm : L.Perm t.files)
+    (ex : PPath → Bool) (B : PPath) (t : Tree) (L0 : List FileEnt)
+    (hperm0 : L0.Perm t.files)
     (hB : ∀ c ∈ B.comps, c ≠ "" ∧ c ≠ ".")
     (hclean : isClean t.name = true)
     (hrel : ∀ f ∈ t.files, f.rel.all isClean = true)
@@ -519,22 +539,31 @@ theorem setFiles_eq_created (o : Oracles) (st : Settings) (cwd : Comps)
     (hsp1 : (B.abs || B.comps.isEmpty ||
       ((normpath false B.comps).getLast?.any fun c => c != "..")) = true)
     (hsp2 : (!t.files.any (·.rel.isEmpty) || isClean (name B.comps)) = true)
-    (hprobe : ∀ f ∈ t.files, probeEmpty probe (t.name :: f.rel) = (f.size == 0))
+    (hex : ∀ f ∈ t.files, ex (listedPath B f) = true)
     (hprefix : Spec.prefixOK st t = true) :
-    setFiles o st cwd probe (L.map (mkItem B)) B = .ok (Spec.created o st t) := by
-  have hm : ∀ f, f ∈ L → f ∈ t.files := fun f hf => hperm.mem_iff.mp hf
+    setFiles o st cwd ex (L0.map (mkItem B)) B = .ok (Spec.created o st t) := by
+  have hm0 : ∀ f, f ∈ L0 → f ∈ t.files := fun f hf => hperm0.mem_iff.mp hf
+  have hdrop := dropEmpty_eq ex B L0 (fun f hf => hex f (hm0 f hf))
+  have hspec0 := kept_eq_of_perm o st t L0 hperm0 hnodup
+  rw [← filter_keep_nonEmpty] at hspec0
+  generalize hLdef : (L0.filter fun f => f.size != 0) = L at hdrop hspec0
+  have hperm : L.Perm (Spec.nonEmpty t) := by
+    rw [← hLdef]; exact hperm0.filter _
+  have hm : ∀ f, f ∈ L → f ∈ t.files := fun f hf => by
+    rw [← hLdef] at hf; exact hm0 f (List.mem_filter.mp hf).1
+  have hszL : ∀ f ∈ L, (f.size != 0) = true := fun f hf => by
+    rw [← hLdef] at hf; exact (List.mem_filter.mp hf).2
   have hrelL : ∀ f ∈ L, f.rel.all isClean = true := fun f hf => hrel f (hm f hf)
-  have hk := filterFiles_eq o st cwd probe B t L hperm hrelL
-    (fun f hf => hprobe f (hm f hf)) hprefix
+  have hk := filterFiles_eq o st cwd B t L hperm hrelL hszL hprefix
   have hK : ∀ f, f ∈ L.filter (Spec.keep o st t.name) →
       f ∈ t.files ∧ Spec.keep o st t.name f = true := by
     intro f hf
     have := List.mem_filter.mp hf
     exact ⟨hm f this.1, this.2⟩
-  have hspec := kept_eq_of_perm o st t L hperm hnodup
+  have hspec := hspec0
   have hdir := dirName_eq cwd B t.name hB hclean hn hsp1
   unfold setFiles
-  simp only [withGetter_eq cwd B t.name L hn hrelL]
+  simp only [hdrop, withGetter_eq cwd B t.name L hn hrelL]
   dsimp only [bind, Except.bind]
   simp only [hk, sortBy_items, hdir]
   unfold Spec.created
@@ -593,13 +622,13 @@ theorem pathSetter_eq_created (o : Oracles) (st : Settings) (env : Env) (t : Tre
   unfold Spec.spellOK at hsp
   simp only [Bool.and_eq_true] at hsp
   unfold Spec.nameOK at hnm
-  unfold Spec.probeOK at hpr
-  simp only [List.all_eq_true, beq_iff_eq] at hpr
+  unfold Spec.listedExist at hpr
+  simp only [List.all_eq_true] at hpr
   have hperm : env.order.Perm t.files := List.isPerm_iff.mp hord
   unfold pathSetter
   obtain ⟨L, hL, hlist⟩ := listFiles_eq o.cf (pathlibNorm env.spelling) env.order
   simp only [hlist]
-  exact setFiles_eq_created o st env.cwd env.probe (pathlibNorm env.spelling) t L
+  exact setFiles_eq_created o st env.cwd env.pathExists (pathlibNorm env.spelling) t L
     (hL.trans hperm) (pathlibNorm_mem env.spelling) hclean
     (fun f hf => List.all_eq_true.mpr (hrel f hf)) hnodup (by simpa using hnm) hsp.1 hsp.2 hpr hpf
 
@@ -666,6 +695,106 @@ theorem keep_iff (o : Oracles) (st : Settings) (n : String) (f : FileEnt) :
     · cases h5 : Spec.included o st (Spec.patPath n f)
       · exact absurd ⟨h4, h5⟩ h3
       · exact Or.inr rfl
+
+/-! ### empty files never reach the result — for every spelling, cwd and pattern set -/
+
+theorem mapM_except_mem {ε α β : Type} {g : α → Except ε β} {l : List α} {r : List β}
+    (h : l.mapM g = .ok r) : ∀ y ∈ r, ∃ x ∈ l, g x = .ok y := by
+  induction l generalizing r with
+  | nil =>
+    have : r = [] := by
+      have h' : (Except.ok [] : Except ε (List β)) = .ok r := h
+      cases h'; rfl
+    subst this
+    intro y hy; cases hy
+  | cons a l ih =>
+    rw [List.mapM_cons] at h
+    cases ha : g a with
+    | error e => rw [ha] at h; cases h
+    | ok b =>
+      cases hl : l.mapM g with
+      | error e => rw [ha, hl] at h; cases h
+      | ok bs =>
+        rw [ha, hl] at h
+        have h' : (Except.ok (b :: bs) : Except ε (List β)) = .ok r := h
+        cases h'
+        intro y hy
+        rcases List.mem_cons.mp hy with rfl | hy
+        · exact ⟨a, by simp, ha⟩
+        · obtain ⟨x, hx, hgx⟩ := ih hl y hy
+          exact ⟨x, List.mem_cons_of_mem _ hx, hgx⟩
+
+theorem withGetter_mem {cwd absB : Comps} {files : List Item} {items : List (Item × Comps)}
+    (h : withGetter cwd absB files = .ok items) : ∀ it ∈ items, it.1 ∈ files := by
+  intro it hit
+  obtain ⟨x, hx, hg⟩ := mapM_except_mem h it hit
+  split at hg
+  · have h' : (Except.ok (x, _) : Except Err (Item × Comps)) = .ok it := hg
+    cases h'; exact hx
+  · cases hg
+
+theorem filesInfo_mem {cwd absB : Comps} {sorted : List Item} {info : List (Comps × Nat)}
+    (h : filesInfo cwd absB sorted = .ok info) : ∀ e ∈ info, ∃ f ∈ sorted, e.2 = f.ent.size := by
+  intro e he
+  obtain ⟨x, hx, hg⟩ := mapM_except_mem h e he
+  split at hg
+  · have h' : (Except.ok (_, x.ent.size) : Except Err (Comps × Nat)) = .ok e := hg
+    cases h'; exact ⟨x, hx, rfl⟩
+  · cases hg
+
+/-- whatever the spelling, the cwd, the patterns and the base path are: if the files of size 0
+    that `_set_files` is handed exist under the path they were given with, none of them is stored -/
+theorem setFiles_no_empty (o : Oracles) (st : Settings) (cwd : Comps) (ex : PPath → Bool)
+    (files : List Item) (B : PPath)
+    (hex : ∀ f ∈ files, f.ent.size = 0 → ex f.path = true) :
+    ∀ e ∈ filesOf (setFiles o st cwd ex files B), e.2 ≠ 0 := by
+  have hdrop : ∀ f ∈ dropEmpty ex files, f.ent.size ≠ 0 := by
+    intro f hf hz
+    unfold dropEmpty at hf
+    obtain ⟨hf1, hf2⟩ := List.mem_filter.mp hf
+    simp [hz, hex f hf1 hz] at hf2
+  unfold setFiles
+  simp only [bind, Except.bind, pure, Except.pure]
+  cases hw : withGetter cwd (abspath cwd B) (dropEmpty ex files) with
+  | error e => intro e he; simp [filesOf] at he
+  | ok items =>
+    have hkept : ∀ k ∈ (filterFiles o st cwd items).map (·.1), k.ent.size ≠ 0 := by
+      intro k hk
+      obtain ⟨it, hit, rfl⟩ := List.mem_map.mp hk
+      unfold filterFiles at hit
+      exact hdrop _ (withGetter_mem hw it (List.mem_filter.mp hit).1)
+    simp only
+    generalize (filterFiles o st cwd items).map (·.1) = kept at hkept
+    split
+    · intro e he; simp [filesOf] at he
+    · split
+      · intro e he
+        simp only [filesOf, List.mem_singleton] at he
+        rw [he]
+        cases kept with
+        | nil => simp_all
+        | cons k ks => simpa using hkept k (by simp)
+      · cases hi : filesInfo cwd (abspath cwd B)
+            (sortBy (fun a b => decide (a.path.comps ≤ b.path.comps)) kept) with
+        | error e => intro e he; simp [filesOf] at he
+        | ok info =>
+          intro e he
+          simp only [filesOf] at he
+          obtain ⟨f, hf, hsz⟩ := filesInfo_mem hi e he
+          rw [hsz]
+          exact hkept f (mem_sortBy.mp hf)
+
+theorem pathSetter_no_empty (o : Oracles) (st : Settings) (env : Env)
+    (hex : ∀ f ∈ env.order, f.size = 0 →
+      env.pathExists (listedPath (pathlibNorm env.spelling) f) = true) :
+    ∀ e ∈ filesOf (pathSetter o st env), e.2 ≠ 0 := by
+  unfold pathSetter
+  obtain ⟨L, hL, hlist⟩ := listFiles_eq o.cf (pathlibNorm env.spelling) env.order
+  simp only [hlist]
+  apply setFiles_no_empty
+  intro it hit hz
+  obtain ⟨f, hf, rfl⟩ := List.mem_map.mp hit
+  exact hex f (hL.mem_iff.mp hf) hz
 
 /-! ### case folding of globs, no case folding for regular expressions -/
 
@@ -777,5 +906,39 @@ theorem normpath_pathlibNorm (a : Bool) (p : PPath) :
     normpath a (pathlibNorm p).comps = normpath a p.comps := by
   unfold normpath pathlibNorm
   rw [foldl_normStep_filter]
+
+/-! ### the listed paths exist wherever the tree is addressed from -/
+
+theorem normpath_append_pathlibNorm (a : Bool) (pre : Comps) (p : PPath) :
+    normpath a (pre ++ (pathlibNorm p).comps) = normpath a (pre ++ p.comps) := by
+  unfold normpath pathlibNorm
+  rw [List.foldl_append, List.foldl_append, foldl_normStep_filter]
+
+/-- `os.path.exists` of the path `list_files` produces for tree entry `f` (spelling + `rel`,
+    read in `cwd`) finds the entry at the place the spelling leads to -/
+theorem fsExists_listed (fs : FS) (cwd : Comps) (sp : PPath) (f : FileEnt)
+    (hrel : f.rel.all isClean = true)
+    (hc : fs.contains
+      (normpath true (if sp.abs then sp.comps else cwd ++ sp.comps) ++ f.rel, some f.size) = true) :
+    fsExists fs cwd (listedPath (pathlibNorm sp) f) = true := by
+  unfold fsExists
+  have hq : normpath true (if (listedPath (pathlibNorm sp) f).abs
+        then (listedPath (pathlibNorm sp) f).comps
+        else cwd ++ (listedPath (pathlibNorm sp) f).comps)
+      = normpath true (if sp.abs then sp.comps else cwd ++ sp.comps) ++ f.rel := by
+    have hab : (listedPath (pathlibNorm sp) f).abs = sp.abs := rfl
+    have hco : (listedPath (pathlibNorm sp) f).comps = (pathlibNorm sp).comps ++ f.rel := rfl
+    rw [hab, hco]
+    cases sp.abs with
+    | true =>
+      simp only [if_true]
+      rw [normpath_append_clean true _ _ hrel, normpath_pathlibNorm]
+    | false =>
+      simp only [Bool.false_eq_true, if_false]
+      rw [← List.append_assoc, normpath_append_clean true _ _ hrel, normpath_append_pathlibNorm]
+  simp only [hq]
+  rw [List.any_eq_true]
+  rw [List.contains_iff_mem] at hc
+  exact ⟨_, hc, List.isPrefixOf_iff_prefix.mpr (List.prefix_refl _)⟩
 
 end Torf.Create
